@@ -489,6 +489,19 @@ func timeDrv(args []string) {
 		runHistory(w, rng, at(ws), base, mk(append([]int64{ws, ws + 1}, rest...)...), "boundary")
 		runHistory(w, rng, at(ws+1), base, mk(append([]int64{ws + 1, ws + 1}, rest...)...), "boundary")
 		runHistory(w, rng, at(ws), base, mk(append([]int64{ws + 1}, rest...)...), "boundary")
+		// start times that are not whole milliseconds (time.Now() never is): the last nanoseconds and microseconds of the
+		// week still belong to it, the first ones of the next week to the next
+		for _, dn := range []time.Duration{-1, -400 * time.Microsecond, -500 * time.Microsecond, -999999, 1, 499999, 500000} {
+			if mode == "c06" && dn < 0 {
+				continue // (C06 wants the first observation at or after the start time)
+			}
+			T := at(ws + weekMs).Add(dn)
+			if dn < 0 {
+				runHistory(w, rng, T, base, mk(ws+1000, ws+dayMs, ws+weekMs-1, ws+weekMs, ws+weekMs+5000), "boundary")
+			} else {
+				runHistory(w, rng, T, base, mk(ws+weekMs+1, ws+weekMs+dayMs, ws+2*weekMs-1, ws+2*weekMs), "boundary")
+			}
+		}
 		if mode != "c06" {
 			// C17: any start time in the week of the first observation, the first observation may be earlier
 			runHistory(w, rng, at(ws+weekMs-1), base, mk(append([]int64{ws, ws}, rest...)...), "boundary")
